@@ -583,7 +583,10 @@ func (m *Memory) Sync() error {
 	defer m.mx.Unlock()
 	m.syncMx.Lock()
 	defer m.syncMx.Unlock()
-	m.writeDb(false)
+	// wait for the write: the records have to show in queries from now on
+	if done := m.writeDb(false); done != nil {
+		<-done
+	}
 
 	m.log("sync OK")
 
@@ -663,9 +666,9 @@ func (m *Memory) encode(v any) ([]byte, error) {
 }
 
 // writeDb requires [Memory.mx].
-func (m *Memory) writeDb(rLocked bool) {
+func (m *Memory) writeDb(rLocked bool) <-chan struct{} {
 	if m.SavePending.Load() <= 0 {
-		return
+		return nil
 	}
 
 	q := m.queue
@@ -683,7 +686,9 @@ func (m *Memory) writeDb(rLocked bool) {
 	m.SavePending.Add(-int32(l))
 
 	// fork
+	done := make(chan struct{})
 	go func() {
+		defer close(done)
 		if rLocked {
 			defer m.syncMx.RUnlock()
 		}
@@ -745,6 +750,8 @@ func (m *Memory) writeDb(rLocked bool) {
 		all := m.Saved.Add(uint64(l))
 		m.log("saved %d records (total %d)", l, all)
 	}()
+
+	return done
 }
 
 func (m *Memory) checkGc() {
